@@ -15,9 +15,12 @@ import time
 
 VERIF = os.path.dirname(os.path.dirname(os.path.abspath(__file__)))
 SPEC = os.path.join(VERIF, "spec")
-OUT = os.path.join(VERIF, "out")
-EVID = os.path.join(VERIF, "evidence")
-REPLAYS = os.path.join(VERIF, "replays")
+# VERIF_SANDBOX redirects everything a run writes (scratch, evidence, replays); used only when a check is pointed
+# at a scratch copy of the repository (BLDFM_REPO) to try a seeded change, so that /verif's own evidence stays put
+_SB = os.environ.get("VERIF_SANDBOX")
+OUT = os.path.join(_SB or VERIF, "out")
+EVID = os.path.join(_SB or VERIF, "evidence")
+REPLAYS = os.path.join(_SB or VERIF, "replays")
 REPO = os.environ.get("BLDFM_REPO", "/repo")
 PY = "/venv/bin/python"
 NCPU = os.cpu_count() or 4
